@@ -1,9 +1,14 @@
 // C18: generated grids are valid, nested and coarsenable; grid files round-trip; rejected inputs raise exceptions.
 //
 // One case = one tuple (R0, Rmax, nr_exp, ntheta_exp, refinement radius, anisotropic_factor, divideBy2, maxLevels).
-// Every call into the grid constructors is first executed in a forked child (c18::run_in_child), which tells whether it
-// returns, throws, or dies (assert / sanitizer / signal).  Only calls that returned are repeated in this process to
-// MEASURE the result.  Nothing is decided here: the oracle (oracles/c18.py) compares the recorded values with thresholds.
+// Process structure of a case:
+//   supervisor (driver process): generates the tuple, never calls the library, collects the records of the
+//     measuring child; if that child dies the death is an observation of this case (no_crash, last announced phase)
+//   measuring child (one per case): every call into the grid constructors is first executed in a forked probe child
+//     (c18::run_in_child), which tells whether it returns, throws, or dies (assert / sanitizer / signal); only calls
+//     that returned are repeated in the measuring child to MEASURE the result.  A write out of bounds that nothing
+//     intercepts (-O2 build) can therefore damage at most the heap of this one case.
+// Nothing is decided here: the oracle (oracles/c18.py) compares the recorded values with thresholds.
 #include "common/driver.h"
 #include "common/factory.h"
 #include "common/c18_util.h"
@@ -438,33 +443,40 @@ static void remove_path(const std::string& p)
         rmdir(p.c_str());
 }
 
-static void run_case(CaseCtx& c)
+struct CasePlan {
+    Tuple t;
+    bool dirbc = false, do_fault = false;
+    int prec   = 18;
+    long setup_limit = 0;
+    std::string scratch, cls;
+    JObj sig;
+};
+
+// announce to the runner (crash attribution of the whole driver) and to the supervisor (death of the measuring child)
+static void announce(CaseCtx& c, const std::string& cls)
+{
+    c.announce(cls);
+    c18::emit_record({"A", cls});
+}
+
+static void measure_case(CaseCtx& c, CasePlan& pl)
 {
     Rng& rng = c.rng;
     Obs& o   = c.obs;
-    Tuple t  = gen_tuple(rng);
-    bool dirbc       = rng.coin();
-    int prec         = rng.coin(0.4) ? 18 : (rng.coin(0.5) ? rng.range(15, 17) : rng.range(3, 14));
-    bool do_fault    = rng.coin(0.6);
-    long setup_limit = atol(c.arg("setup_nodes", "9000").c_str());
-    std::string scratch = c.arg("scratch", "/verif/.runs/C18/files");
-
-    o.params.num("R0", t.R0).num("Rmax", t.Rmax).i("nr_exp", t.nr_exp).i("ntheta_exp", t.nth_exp).i("anisotropic_factor", t.aniso);
-    o.params.i("divideBy2", t.div).num("refinement_radius", t.rr).str("radius_class", t.rr_class).str("R0_class", t.r0_class);
-    o.params.i("maxLevels", t.max_levels).b("DirBC_Interior", dirbc).i("write_precision", prec);
-
-    std::string aniso_cls = t.aniso == 0 ? "uniform" : (t.aniso < 0 ? "aniso<0" : (t.aniso >= t.nr_exp ? "aniso>=nr_exp" : "aniso"));
-    std::string rr_sig    = t.aniso == 0 ? "n-a" : t.rr_class;
-    std::string cls       = "gen/" + aniso_cls + "/" + (t.r0_valid ? "radius-" + rr_sig : "invalid-" + t.r0_class);
-    JObj sig;
-    sig.i("nr_exp", t.nr_exp).i("aniso", t.aniso).i("divideBy2", t.div).str("radius", t.r0_valid ? rr_sig : "invalid-" + t.r0_class);
+    const Tuple& t = pl.t;
+    const bool dirbc = pl.dirbc, do_fault = pl.do_fault;
+    const int prec = pl.prec;
+    const long setup_limit = pl.setup_limit;
+    const std::string& scratch = pl.scratch;
+    const std::string& cls = pl.cls;
+    JObj& sig = pl.sig;
     auto finish = [&](const std::string& outcome, bool nontrivial) {
         sig.str("outcome", outcome);
         o.top.obj("sig", sig);
         o.top.b("nontrivial", nontrivial);
         o.info.str("outcome", outcome);
     };
-    c.announce(cls);
+    announce(c, cls);
 
     // ---------------------------------------------------------------- 1. the constructor, observed from outside
     ChildOutcome co = c18::run_in_child([&] { PolarGrid g = make_grid(t); });
@@ -508,7 +520,7 @@ static void run_case(CaseCtx& c)
     std::unique_ptr<GMGPolar> solver = make_solver(t, dirbc);
     int L = -1;
     std::string levels_exc;
-    c.announce(cls + "/levels");
+    announce(c, cls + "/levels");
     try {
         L = GMGPolarVerifAccess::choose(*solver, g);
     }
@@ -529,7 +541,7 @@ static void run_case(CaseCtx& c)
     bool did_setup = false;
     if ((long)g.nr() * g.ntheta() <= setup_limit) {
         did_setup = true;
-        c.announce(cls + "/setup");
+        announce(c, cls + "/setup");
         solver->write_grid_file(true);
         solver->file_grid_radii(fr + ".s");
         solver->file_grid_angles(ft + ".s");
@@ -561,7 +573,7 @@ static void run_case(CaseCtx& c)
             // whatever the loader is told about the generator must not matter
             loader->nr_exp(3);
             loader->anisotropic_factor(0);
-            c.announce(cls + "/setup-load");
+            announce(c, cls + "/setup-load");
             bool lthrew = false;
             try {
                 loader->setup();
@@ -584,7 +596,7 @@ static void run_case(CaseCtx& c)
 
     // ---------------------------------------------------------------- 6. write / load with a chosen precision
     {
-        c.announce(cls + "/roundtrip/precision-" + std::to_string(prec));
+        announce(c, cls + "/roundtrip/precision-" + std::to_string(prec));
         g.writeToFile(fr, ft, prec);
         ChildOutcome cl = c18::run_in_child([&] { PolarGrid h(fr, ft); });
         // the written decimals still describe a grid (distinct, positive values) when the precision resolves it
@@ -633,7 +645,7 @@ static void run_case(CaseCtx& c)
             }
         }
         std::string fcls = "load/" + f.kind + "/" + (f.on_radii ? "radii-file" : "angles-file") + "/" + left;
-        c.announce(cls + "/" + fcls);
+        announce(c, cls + "/" + fcls);
         ChildOutcome cl = c18::run_in_child([&] { PolarGrid h(lr, lt); });
         o.info.str("fault", f.kind + (f.on_radii ? "/radii" : "/angles")).str("fault_outcome", std::string(cl.kind_name()) + (cl.kind == ChildOutcome::STD_EXCEPTION ? " " + c18::squeeze(cl.what, 60) : ""));
         if (cl.kind == ChildOutcome::CRASH)
@@ -655,6 +667,87 @@ static void run_case(CaseCtx& c)
     remove_path(ft);
 
     finish("accepted", true);
+}
+
+// ---- records: measuring child -> supervisor
+static void ship_observation(const Obs& o)
+{
+    for (auto& kv : o.top.kv)
+        if (kv.first != "case")
+            c18::emit_record({"T", kv.first, kv.second});
+    for (auto& kv : o.info.kv)
+        c18::emit_record({"I", kv.first, kv.second});
+    for (auto& p : o.checks) {
+        auto k = o.keys.find(p.first);
+        auto n = o.counts.find(p.first);
+        c18::emit_record({"C", p.first, jnum(p.second), std::to_string(n == o.counts.end() ? 1 : n->second), k == o.keys.end() ? "" : k->second});
+    }
+    c18::emit_record({"Z"});
+}
+
+static void run_case(CaseCtx& c)
+{
+    Rng& rng = c.rng;
+    Obs& o   = c.obs;
+    CasePlan pl;
+    pl.t           = gen_tuple(rng);
+    pl.dirbc       = rng.coin();
+    pl.prec        = rng.coin(0.4) ? 18 : (rng.coin(0.5) ? rng.range(15, 17) : rng.range(3, 14));
+    pl.do_fault    = rng.coin(0.6);
+    pl.setup_limit = atol(c.arg("setup_nodes", "5000").c_str());
+    pl.scratch     = c.arg("scratch", "/verif/.runs/C18/files");
+    const Tuple& t = pl.t;
+
+    o.params.num("R0", t.R0).num("Rmax", t.Rmax).i("nr_exp", t.nr_exp).i("ntheta_exp", t.nth_exp).i("anisotropic_factor", t.aniso);
+    o.params.i("divideBy2", t.div).num("refinement_radius", t.rr).str("radius_class", t.rr_class).str("R0_class", t.r0_class);
+    o.params.i("maxLevels", t.max_levels).b("DirBC_Interior", pl.dirbc).i("write_precision", pl.prec);
+
+    std::string aniso_cls = t.aniso == 0 ? "uniform" : (t.aniso < 0 ? "aniso<0" : (t.aniso >= t.nr_exp ? "aniso>=nr_exp" : "aniso"));
+    std::string rr_sig    = t.aniso == 0 ? "n-a" : t.rr_class;
+    pl.cls                = "gen/" + aniso_cls + "/" + (t.r0_valid ? "radius-" + rr_sig : "invalid-" + t.r0_class);
+    pl.sig.i("nr_exp", t.nr_exp).i("aniso", t.aniso).i("divideBy2", t.div).str("radius", t.r0_valid ? rr_sig : "invalid-" + t.r0_class);
+    c.announce(pl.cls);
+
+    // everything that touches the library happens in the measuring child
+    ChildOutcome mo = c18::run_in_child([&] {
+        measure_case(c, pl);
+        ship_observation(c.obs);
+    }, 900);
+    std::string last_phase = pl.cls;
+    bool complete          = false;
+    for (auto& f : c18::parse_records(mo.all)) {
+        if (f[0] == "A" && f.size() >= 2)
+            last_phase = f[1];
+        else if (f[0] == "T" && f.size() >= 3)
+            o.top.raw(f[1], f[2]);
+        else if (f[0] == "I" && f.size() >= 3)
+            o.info.raw(f[1], f[2]);
+        else if (f[0] == "C" && f.size() >= 5) {
+            const std::string& v = f[2];
+            o.checks[f[1]] = v == "NaN" ? NAN : (v == "Infinity" ? INFINITY : (v == "-Infinity" ? -INFINITY : strtod(v.c_str(), nullptr)));
+            o.counts[f[1]] = atoll(f[3].c_str());
+            if (!f[4].empty())
+                o.keys[f[1]] = f[4];
+        }
+        else if (f[0] == "Z")
+            complete = true;
+    }
+    if (mo.kind == ChildOutcome::OK && complete)
+        return;
+    if (mo.kind == ChildOutcome::STD_EXCEPTION || mo.kind == ChildOutcome::OTHER_EXCEPTION)
+        throw std::runtime_error("measuring child: " + mo.type + ": " + mo.what + " [" + last_phase + "]");
+    // the measuring child died (or stopped reporting): an observation of this case
+    std::string death = mo.kind == ChildOutcome::CRASH ? mo.type : "incomplete-report";
+    o.checks["no_crash"] = 1.0;
+    o.counts["no_crash"] += 1;
+    // key: input class + kind of death; the phase it happened in is recorded in info (after a silent out-of-bounds write
+    // the place where the heap damage surfaces is arbitrary)
+    o.keys["no_crash"] = pl.cls + "/measuring-process/" + death;
+    o.info.str("measuring_process_death", death).str("measuring_process_phase", last_phase);
+    o.info.str("stderr_tail", mo.tail.substr(mo.tail.size() > 600 ? mo.tail.size() - 600 : 0));
+    pl.sig.str("outcome", "crash");
+    o.top.obj("sig", pl.sig);
+    o.top.b("nontrivial", false);
 }
 
 int main(int argc, char** argv) { return driver_main(argc, argv, "C18", run_case); }
